@@ -65,6 +65,7 @@ type sentinelClient struct {
 	rAddr        atomic.Value
 	sAddr        string
 	sc           call
+	sGen         uint64 // number of listWatch calls so far, guarded by mu
 	mu           sync.Mutex
 	stop         uint32
 	cmd          Builder
@@ -630,7 +631,8 @@ func (c *sentinelClient) listWatch(cc conn) (master string, replica string, sent
 	// unsubscribe in case there is any previous subscription
 	cc.Do(ctx, cmds.SentinelUnSubscribe)
 
-	go func(cc conn) {
+	c.sGen++ // c.mu is held by _refresh
+	go func(cc conn, gen uint64) {
 		if err := cc.Receive(ctx, cmds.SentinelSubscribe, func(event PubSubMessage) {
 			switch event.Channel {
 			case "+sentinel":
@@ -658,9 +660,19 @@ func (c *sentinelClient) listWatch(cc conn) (master string, replica string, sent
 				}
 			}
 		}); err != nil && atomic.LoadUint32(&c.stop) == 0 {
-			c.refreshRetry()
+			for {
+				c.refreshRetry()
+				// refresh() joins a _refresh that is already running, and that one may be the very _refresh that
+				// subscribed to this connection before it failed: make sure a later one has subscribed again.
+				c.mu.Lock()
+				stale := c.sGen == gen
+				c.mu.Unlock()
+				if !stale || atomic.LoadUint32(&c.stop) != 0 {
+					break
+				}
+			}
 		}
-	}(cc)
+	}(cc, c.sGen)
 
 	var commands Commands
 	if c.replica {
